@@ -284,7 +284,7 @@ func (p *Program) fieldAssertions(fn *ssa.Function, idx int, field string) *asse
 func ruleTCH(p *Program, c *Check) {
 	c.Rule("TCH", "for every method id: the dynamic types produced for MethodParameters (ParseParams, listener Merge and OnCriteriaRemoved) are the type every consumer asserts "+
 		"(Evaluate, the listener callbacks, RankCriteriaAscending), and the types a listener's OnCriterionAdded produces are accepted by the assertions of its own Merge; "+
-		"the same for the nested satisfaction-level listeners", 15)
+		"the same for the nested satisfaction-level listeners", 10)
 	check := func(channel, owner string, producers map[string]bool, consumers *assertInfo, where string) {
 		if len(consumers.Types) == 0 {
 			c.Pass("TCH", owner, channel, where, "no assertion on this channel: every producer is accepted")
@@ -480,7 +480,7 @@ var lenExceptions = map[string]string{
 
 func ruleLEN(p *Program, c *Check, funcs []*ssa.Function) {
 	c.Rule("LEN", "a slice allocated with make([]T, n) and filled by index on every iteration of a counting loop is sized by the loop's trip count "+
-		"(a result sized by another collection yields zero-valued trailing entries or an index panic)", 40)
+		"(a result sized by another collection yields zero-valued trailing entries or an index panic)", 25)
 	for _, f := range funcs {
 		if f.Blocks == nil || len(loopHeaders(f)) == 0 {
 			continue
@@ -501,7 +501,7 @@ func ruleLEN(p *Program, c *Check, funcs []*ssa.Function) {
 // PANIC-type
 
 func rulePanicType(p *Program, c *Check, funcs []*ssa.Function) {
-	c.Rule("PANIC-type", "every panic on the request path carries an error or a string, so that the handler's recover can render it as the 400 body", 60)
+	c.Rule("PANIC-type", "every panic on the request path carries an error or a string, so that the handler's recover can render it as the 400 body", 45)
 	errT := types.Universe.Lookup("error").Type()
 	for _, f := range funcs {
 		for _, b := range f.Blocks {
